@@ -23,6 +23,8 @@ def groupOf (tok : String) : Option (List DtOp) :=
   | some o => some [.api o]
   | none =>
     match tok.splitOn ":" with
+    | ["c", pre, post] =>
+      some ((cbStepPlan (if b01 pre then some () else none) (if b01 post then some () else none)).map DtOp.api)
     | ["i", n, k, e, r, x, fo, rc] =>
       match n.toNat?, k.toNat? with
       | some n, some k => some (integratePlan n k (b01 e) (b01 r) (b01 x) (b01 fo) (b01 rc))
@@ -41,7 +43,7 @@ def runGroup {F : Type} (api apiForce : F → Op Unit → Except String (List St
     match api f o with
     | .error e => .error e
     | .ok (ps, f') =>
-      let tail := match o with | .step => ["stepEnd"] | _ => []
+      let tail := match o with | .step => ["stepEnd"] | .poke _ => ["cbEdit"] | _ => []
       runGroup api apiForce f' r ((ps ++ tail).reverse ++ acc)
   | f, .begin :: r, acc => runGroup api apiForce f r ("intBegin" :: acc)
   | f, .flipDt :: r, acc => runGroup api apiForce f r ("flipDt" :: acc)
